@@ -27,7 +27,8 @@ VALS = {
     "d1": date(2024, 5, 1), "d2": date(2024, 5, 3),
     "n1": datetime(2024, 5, 1, 10, 0), "n2": datetime(2024, 5, 2, 12, 30),
     "u1": datetime(2024, 5, 1, 10, 0, tzinfo=timezone.utc), "u2": datetime(2024, 5, 2, 12, 30, tzinfo=timezone.utc),
-    "z1": datetime(2024, 5, 1, 10, 0, tzinfo=BERLIN), "z2": datetime(2024, 5, 2, 12, 30, tzinfo=BERLIN),
+    # zoned values around the 2024-03-31 02:00 DST change: z1 + P1D / P1DT2H crosses it (wall-clock arithmetic, RFC 5545 3.3.6)
+    "z1": datetime(2024, 3, 30, 10, 0, tzinfo=BERLIN), "z2": datetime(2024, 3, 31, 12, 30, tzinfo=BERLIN),
 }
 DURS = {"P0": timedelta(0), "P1D": timedelta(days=1), "PT1H": timedelta(hours=1), "P1DT2H": timedelta(days=1, hours=2)}
 WRONG = {"str": "20240501", "int": 5}
@@ -230,6 +231,23 @@ def check_state(cname, c, m, fails, case):
     for attr in ("start", "end", "duration"):
         obs = observe(c, attr)
         vals[attr] = obs
+        if attr == "start" and isinstance(obs, tuple) and m.D and not m.E and not m.forbidden() and m.S and kind(m.S[0]) == "aware" \
+                and any(same(obs, w) for w in exp["start"]):
+            # "start + DURATION" is the addition of the tzinfo the library holds (C14's assumption as well): a pytz
+            # value adds elapsed time, a zoneinfo value adds wall-clock time
+            try:
+                exp["end"] = exp["end"] | {("value", obs[1] + m.D[0])}
+                exp["duration"] = exp["duration"] | {("value", m.D[0])}
+            except TypeError:
+                pass
+        if attr == "duration" and m.S and kind(m.S[0]) == "aware" and not m.forbidden() \
+                and all(isinstance(vals[a], tuple) and any(same(vals[a], w) for w in exp[a]) for a in ("start", "end")):
+            # end - start likewise: the subtraction of the values the library holds (wall-clock for one zoneinfo object,
+            # elapsed time for pytz values) - the identity end - start == duration is checked on them below
+            try:
+                exp["duration"] = exp["duration"] | {("value", vals["end"][1] - vals["start"][1])}
+            except TypeError:
+                pass
         if not any(same(obs, w) for w in exp[attr]):
             fails.append({"cls": f"{cname}.{attr}:{m.forbidden() or 'valid'}-state", "case": case, "size": len(repr(case)),
                           "expected": sorted(map(repr, exp[attr])), "observed": repr(obs)})
@@ -355,10 +373,10 @@ def unit_test(case):
 
 # ------------------------------------------------------------------ parse-produced states
 S_LINES = {"d1": "DTSTART;VALUE=DATE:20240501", "n1": "DTSTART:20240501T100000", "u1": "DTSTART:20240501T100000Z",
-           "z1": "DTSTART;TZID=Europe/Berlin:20240501T100000", "bad-dur": "DTSTART:PT1H",
+           "z1": "DTSTART;TZID=Europe/Berlin:20240330T100000", "bad-dur": "DTSTART:PT1H",
            "bad-period": "DTSTART;VALUE=PERIOD:20240501T100000/PT1H", "n2": "DTSTART:20240502T123000"}
 E_VALS = {"d2": ";VALUE=DATE:20240503", "n2": ":20240502T123000", "u2": ":20240502T123000Z",
-          "z2": ";TZID=Europe/Berlin:20240502T123000", "bad-dur": ":P1D", "d1": ";VALUE=DATE:20240501"}
+          "z2": ";TZID=Europe/Berlin:20240331T123000", "bad-dur": ":P1D", "d1": ";VALUE=DATE:20240501"}
 D_LINES = {"P0": "DURATION:P0D", "P1D": "DURATION:P1D", "PT1H": "DURATION:PT1H", "P1DT2H": "DURATION:P1DT2H",
            "PT0S": "DURATION:PT0S", "bad-date": "DURATION:20240501", "-PT1H": "DURATION:-PT1H"}
 PARSED = dict(VALS)
